@@ -16,6 +16,8 @@ def load_known():
 
 
 def slug(s):
+    for a, b in (('<', 'lt'), ('>', 'gt'), ('=', 'eq'), ('!', 'not')):
+        s = s.replace(a, b)
     return re.sub(r'[^A-Za-z0-9_.-]+', '_', s)[:120]
 
 
